@@ -415,7 +415,8 @@ Inductive sentry :=
 
 Inductive sblock :=
 | BPlain (cat : pystr) (es : list sentry)
-| BIdx (side2 : bool) (es : list (pystr * ipath * list (nat * nat))).     (* iterable_items_{added,removed}_at_indexes[key] = {index: item}; (index, identity) *)
+| BIdx (side2 : bool) (es : list (pystr * ipath * list (nat * nat)))      (* iterable_items_{added,removed}_at_indexes[key] = {index: item}; (index, identity) *)
+| BSkipped (cat : pystr) (d : dv).                                         (* a key the filter drops: _iterable_opcodes, _numpy_paths, ... *)
 Definition sdelta := list sblock.
 
 Local Open Scope string_scope.
@@ -446,6 +447,7 @@ Definition dv_of_block (t1 t2 : value) (b : sblock) : dkey * nat * dv :=
        DMap (map (fun e => let '(key, p, items) := e in
                            (KStr key, O,
                             DMap (map (fun ii => (KOther, snd ii, dvat (side t1 t2 s2) (p ++ [fst ii]))) items))) es))
+  | BSkipped cat d => (KStr cat, O, d)
   end.
 
 Definition dv_of_sdelta (t1 t2 : value) (sd : sdelta) : dv := DMap (map (dv_of_block t1 t2) sd).
@@ -463,6 +465,7 @@ Definition block_pos (want2 : bool) (b : sblock) : list ipath :=
   | BIdx s2 es => if Bool.eqb s2 want2
                   then flat_map (fun e => let '(_, p, items) := e in map (fun ii => p ++ [fst ii]) items) es
                   else []
+  | BSkipped _ _ => []
   end.
 Definition positions (want2 : bool) (sd : sdelta) : list ipath := flat_map (block_pos want2) sd.
 
@@ -491,6 +494,7 @@ Definition block_keys_ok (b : sblock) : bool :=
   match b with
   | BPlain cat es => cat_key_ok cat && forallb (fun e => path_key_ok (entry_key e)) es
   | BIdx _ es => forallb (fun e => path_key_ok (fst (fst e))) es
+  | BSkipped cat _ => negb (is_dedupe_key (KStr cat)) && match key_skip (KStr cat) with Some true => true | _ => false end
   end.
 
 (* validity of a structured delta: well-formed keys, and the reported
@@ -517,7 +521,7 @@ Definition tc_entry_ok (t1 t2 : value) (e : sentry) : bool :=
   | _ => true
   end.
 Definition tc_guard (t1 t2 : value) (sd : sdelta) : bool :=
-  forallb (fun b => match b with BPlain _ es => forallb (tc_entry_ok t1 t2) es | BIdx _ _ => true end) sd.
+  forallb (fun b => match b with BPlain _ es => forallb (tc_entry_ok t1 t2) es | _ => true end) sd.
 
 (* comparison of two dv trees that ignores the identity tags *)
 Definition dkey_eqb (a b : dkey) : bool :=
